@@ -8,6 +8,8 @@ import sympy
 from .terms import T, subterms
 
 Z3_TIMEOUT_MS = 20000
+import threading
+_Z3LOCK = threading.RLock()   # z3's default context is not thread-safe
 
 
 class Z3Conv:
@@ -155,6 +157,11 @@ class Z3Conv:
 
 def z3_prove(hyps, goal, axioms=(), seed=0, timeout_ms=Z3_TIMEOUT_MS, want_smt2=False):
     """returns (status, model_dict_or_None, seconds, smt2)  status in proved|refuted|unknown"""
+    with _Z3LOCK:
+        return _z3_prove(hyps, goal, axioms, seed, timeout_ms, want_smt2)
+
+
+def _z3_prove(hyps, goal, axioms, seed, timeout_ms, want_smt2):
     t0 = time.time()
     cv = Z3Conv()
     s = z3.Solver()
@@ -183,6 +190,11 @@ def z3_prove(hyps, goal, axioms=(), seed=0, timeout_ms=Z3_TIMEOUT_MS, want_smt2=
 
 def z3_sat(hyps, seed=0, timeout_ms=Z3_TIMEOUT_MS):
     """reachability witness: are the hypotheses satisfiable?"""
+    with _Z3LOCK:
+        return _z3_sat(hyps, seed, timeout_ms)
+
+
+def _z3_sat(hyps, seed, timeout_ms):
     cv = Z3Conv()
     s = z3.Solver()
     s.set("timeout", timeout_ms)
